@@ -131,6 +131,14 @@ func annotatedCasesFor(gen string, u *schema.Universe, r *schema.Resource) []exc
 				call.Keyed = []KV{{K: key, V: full}}
 				reply.Batch = []*BatchEntry{{K: key, Has: map[string]bool{"results": true}, Status: 204}}
 			}
+			if m.ReturnEntity {
+				if reply.Created != nil {
+					reply.Created.Entity = full
+				}
+				for _, c := range reply.CreatedList {
+					c.Entity = full
+				}
+			}
 			outs, pan := w.Do(call, reply)
 			if pan != nil {
 				return "client-panic", fmt.Sprint(pan)
@@ -221,6 +229,9 @@ func annotatedCasesFor(gen string, u *schema.Universe, r *schema.Resource) []exc
 					if method == "partial_update" {
 						call.Keys = []*schema.V{key}
 						call.Patch = p
+						if m.ReturnEntity {
+							reply.Entity = full
+						}
 					} else {
 						call.Keyed = []KV{{K: key, P: p}}
 						reply.Batch = []*BatchEntry{{K: key, Has: map[string]bool{"results": true}, Status: 204}}
@@ -247,6 +258,9 @@ func annotatedCasesFor(gen string, u *schema.Universe, r *schema.Resource) []exc
 				if method == "partial_update" {
 					call.Keys = []*schema.V{key}
 					call.Patch = p
+					if m.ReturnEntity {
+						reply.Entity = full
+					}
 				} else {
 					call.Keyed = []KV{{K: key, P: p}}
 					reply.Batch = []*BatchEntry{{K: key, Has: map[string]bool{"results": true}, Status: 204}}
